@@ -179,4 +179,66 @@ theorem swap16_code_value (bs : Bytes) (h : bs.length < 131072) :
   rw [sumFold_eq_norm _ hs, rfc1071_eq, swap16_compl _ (norm_le _), ← swap16_norm _ _ r1 r2,
     swap16_swap16 _ (norm_le _)]
 
+/-! verification: a message that carries its own checksum sums to "minus zero" -/
+
+theorem wordsLE_append_even : ∀ (a b : Bytes), a.length % 2 = 0 → wordsLE (a ++ b) = wordsLE a ++ wordsLE b
+  | [], b, _ => rfl
+  | [x], b, h => by simp at h
+  | x :: y :: rest, b, h => by
+    have ih := wordsLE_append_even rest b (by simp at h; omega)
+    simp only [List.cons_append, wordsLE, ih]
+
+theorem wordsLE_leBytes2 (c : Nat) (h : c ≤ 65535) (b : Bytes) : wordsLE (leBytes 2 c ++ b) = c :: wordsLE b := by
+  have e1 : (UInt8.ofNat (c % 256)).toNat = c % 256 := toNat_ofNat_mod c
+  have e2 : (UInt8.ofNat (c / 256 % 256)).toNat = c / 256 % 256 := toNat_ofNat_mod (c / 256)
+  simp only [leBytes, List.cons_append, List.nil_append, wordsLE, e1, e2]
+  congr 1
+  omega
+
+theorem wordsLE_zero2 (b : Bytes) : wordsLE ([0, 0] ++ b) = 0 :: wordsLE b := by
+  simp [wordsLE]
+
+theorem sum_append (a b : List Nat) : (a ++ b).sum = a.sum + b.sum := by
+  induction a with
+  | nil => simp
+  | cons x xs ih => simp only [List.cons_append, List.sum_cons, ih]; omega
+
+/-- **verification gives 0**: inserting the computed value into the (even-aligned, zeroed) field and running the
+    code's checksum over the whole message gives 0 -/
+theorem verify_zero (front back : Bytes) (hf : front.length % 2 = 0)
+    (hl : (front ++ ([0, 0] ++ back)).length < 131072) :
+    65535 - sumFold (wordsLE (front ++ (leBytes 2 (65535 - sumFold (wordsLE (front ++ ([0, 0] ++ back))).sum) ++ back))).sum = 0 := by
+  have hs : (wordsLE (front ++ ([0, 0] ++ back))).sum < 4294967296 := by
+    have := wordsLE_sum_le (front ++ ([0, 0] ++ back))
+    have : ((front ++ ([0, 0] ++ back)).length + 1) / 2 ≤ 65536 := by omega
+    have : 65535 * (((front ++ ([0, 0] ++ back)).length + 1) / 2) ≤ 65535 * 65536 := Nat.mul_le_mul_left _ this
+    omega
+  generalize hS : (wordsLE (front ++ ([0, 0] ++ back))).sum = S at hs
+  have hS0 : (wordsLE front).sum + (wordsLE back).sum = S := by
+    rw [← hS, wordsLE_append_even _ _ hf, wordsLE_zero2, sum_append]; simp
+  rw [sumFold_eq_norm S hs]
+  have hn := norm_le S
+  rw [wordsLE_append_even _ _ hf, wordsLE_leBytes2 _ (by omega), sum_append, List.sum_cons]
+  have hsum : (wordsLE front).sum + (65535 - norm S + (wordsLE back).sum) = S + (65535 - norm S) := by omega
+  rw [hsum]
+  have hlt : S + (65535 - norm S) < 4294967296 + 65536 := by omega
+  -- S + 65535 - norm S is a positive multiple of 65535: its fold is 65535
+  have hm := norm_mod S
+  have hz := norm_zero_iff S
+  have key : sumFold (S + (65535 - norm S)) = 65535 := by
+    have h1 : (S + (65535 - norm S)) % 65535 = 0 := by omega
+    have h2 : 0 < S + (65535 - norm S) := by omega
+    generalize S + (65535 - norm S) = T at *
+    unfold sumFold
+    have hT : T / 65536 + T % 65536 < 2 * 65536 := by omega
+    have hT2 : (T / 65536 + T % 65536) % 65535 = 0 := by omega
+    have hT3 : 0 < T / 65536 + T % 65536 := by omega
+    generalize T / 65536 + T % 65536 = U at *
+    by_cases hc : U < 65536
+    · have e : U / 65536 = 0 := by omega
+      rw [e]; omega
+    · have e : U / 65536 = 1 := by omega
+      rw [e]; omega
+  rw [key]
+
 end Acra.Lemmas.Sum16
